@@ -250,6 +250,21 @@ def finish(prop: str, tier: str, seed: int, level: str, rule: str, res: Result, 
     if len(res.sigs) < 2 and not res.inconclusive:
         res.inconclusive.append("fewer than 2 distinct non-trivial cases observed")
 
+    # line reach: the anchored mechanisms of the property must have been exercised
+    reached = res.sets.pop("library_lines_reached", set())
+    try:
+        from vf import linereach  # noqa: PLC0415
+
+        anchors, unreached = linereach.anchor_report(prop, reached, REPO, VERIF)
+    except Exception as e:  # noqa: BLE001
+        anchors, unreached = [{"note": f"anchor report failed: {e!r}"}], []
+    for u in unreached:
+        res.inconclusive.append(f"anchored mechanism never reached by any execution: {u}")
+    files_reached: dict[str, int] = {}
+    for item in reached:
+        f = item.rpartition(":")[0]
+        files_reached[f] = files_reached.get(f, 0) + 1
+
     coverage: dict[str, Any] = {
         "evaluations": res.evaluations,
         "distinct_nontrivial": len(res.sigs),
@@ -260,6 +275,8 @@ def finish(prop: str, tier: str, seed: int, level: str, rule: str, res: Result, 
         "observed_set_sizes": {k: len(v) for k, v in sorted(res.sets.items())},
         "notes": jsonable(res.notes),
         "known_findings_seen": known_seen,
+        "anchors_reached": anchors,
+        "library_lines_reached_per_file": dict(sorted(files_reached.items())),
         "inconclusive": res.inconclusive[:10],
     }
     if exhaustive is not None:
